@@ -29,8 +29,9 @@ MANIFEST = {
             "processMiss/allowCollapsing/forcePublicKey, the ReuseDecision switch of haveParsedReplyHeaders, httpMaybeRemovePublic, release/"
             "releaseRequest/setPrivateKey, complete/completeTruncated/abort/error page, cacheHit, replyStatus; any interleaving of requests, origin "
             "events, store-client callbacks, disconnects, eviction and purges; any number of clients) theorems one_fetch_when_cacheable, "
-            "served_bytes_from_one_fetch, complete_means_whole_response_or_error_page, identical_copies and unshareable_never_served_to_collapsed "
-            "hold; the model is tied to the rebuilt binary by scenario correspondence (fetch count and per-client outcome must equal the model's) "
+            "served_bytes_from_one_fetch, complete_means_whole_response_or_error_page, identical_copies hold, and "
+            "unshareable_never_served_to_collapsed_partial with its counterexample (a Cache-Control: private reply reaches collapsed clients "
+            "when the entry was released before the reply header came: known finding with a candidate fix); the model is tied to the rebuilt binary by scenario correspondence (fetch count and per-client outcome must equal the model's) "
             "and a direct byte-for-byte oracle",
     "note": "trusted: Lean kernel, python rig (origin/client stubs), loopback TCP; not modelled: event-loop timing (the rig sequences it with "
             "hand-shakes and barrier requests), Vary, HEAD/range/conditional requests, collapsed revalidation, SMP (C19)",
